@@ -259,6 +259,31 @@ def check_C20(A, R, tier):
             eff = effects(A, run)
             R.ob("R20.2", "event_startup | %s | rejected without side effects" % sn, not eff,
                  detail="; ".join("%s in %s at %s" % (k, short(v.get("fn", "?")), A.site(v)) for k, v in eff[:4]))
+    # R20.5: 'started' is recorded before anything in the start-up can fail: a start that ends in an error part-way must not leave
+    # the evaluation looking un-started (a second start would then be accepted and run the start-up again on a half-started graph)
+    import rules_more
+    sb = A.evaluator_fn("event_startup")
+    stores = set()
+    for run in A.startup_runs():
+        for v in run.by_kind("store_self"):
+            if v["proj"][:1] == (("f", A.L.start_field),) and v["fn"] == sb.name and not v.get("stack"):
+                stores.add(v["bb"])
+    # error exits that the rejection itself takes are those not reachable from a store block and not passing one: every *other*
+    # fallible call (a call whose result is tested for Err / `?`) must come after a store
+    errs = rules_more.error_exit_blocks(A, sb)
+    fallible = []
+    for blk in sb.blocks:
+        t = blk["term"]["t"]
+        if blk["cleanup"] or t["k"] != "call":
+            continue
+        c = M.callee_of(t)
+        cb = A.facts.body((c[1] or c[0])) if c else None
+        if cb is not None and cb.locals[0]["s"].startswith("std::result::Result<") and cb.kind in ("Fn", "AssocFn"):
+            fallible.append(blk["i"])
+    early = [bi for bi in fallible if not any(sb.dominates(sbb, bi) and sbb != bi for sbb in stores)]
+    R.ob("R20.5", "event_startup | the start status is advanced before the first step that can fail", bool(stores) and not early,
+         detail="a fallible step (bb%s) runs before the status is stored: if it fails the evaluation still counts as not started"
+                % (early[:3],), site=sb.span["s"])
     # R20.3: the python-facing wrappers propagate the evaluator's errors
     n_wrap = 0
     evm = set(b.name for b in A.evaluator_methods())
